@@ -43,6 +43,7 @@ type Rule struct {
 	Run         func(c *Ctx)
 	NeedControl bool // the rule must report at least one violation on the injected control code
 	FamilyShape bool // recognises one coding pattern: absence is not an alarm, no floor
+	ExtraScope  []string // packages armed for this rule in addition to the property's scope
 }
 
 // Property groups the rules that decide (a clause of) one property.
@@ -109,10 +110,22 @@ func (c *Ctx) Report(armed bool, key string, pos token.Pos, format string, args 
 }
 
 // Armed reports whether the SC's package is in the armed scope of the property.
-func (c *Ctx) Armed(sc *model.SC) bool { return c.Scope[sc.Pkg.PkgPath] }
+func (c *Ctx) Armed(sc *model.SC) bool { return c.ArmedPkg(sc.Pkg.PkgPath) }
 
 // ArmedPkg reports whether a package path is armed.
-func (c *Ctx) ArmedPkg(path string) bool { return c.Scope[path] }
+func (c *Ctx) ArmedPkg(path string) bool {
+	if c.Scope[path] {
+		return true
+	}
+	if c.rule != nil {
+		for _, p := range c.rule.ExtraScope {
+			if p == path {
+				return true
+			}
+		}
+	}
+	return false
+}
 
 // Inc increments a model-level counter (printed in the evidence, checked against floors).
 func (c *Ctx) Inc(name string, n int) { c.Count[name] += n }
